@@ -33,12 +33,26 @@ def _root_return_shape(func: ast.AST):
     raise Unsupported("unrecognised way of returning the root-derived envelope")
 
 
+def _l0_guard(func: ast.AST):
+    """KeyCache._get_key: the test of `if <... l0 ...>: raise ValueError(...)` refusing L0 indexes that do not fit the
+    signed 32-bit field of the KDF context / GetKey request; `false` when there is no such statement."""
+    from ..kernels import Translator, _module
+
+    for st in func.body:
+        if isinstance(st, ast.If) and len(st.body) == 1 and isinstance(st.body[0], ast.Raise) and not st.orelse:
+            if "l0" in ast.unparse(st.test):
+                tr = Translator(_module(F), func, {"l0": "Z"}, False)
+                return tr.b(st.test), ast.unparse(st)
+    return "false", "<no statement refuses an out-of-range L0>"
+
+
 KERNELS = [
     K("k_cache_covers", F, "KeyCache._get_key", ("if_mentions", "seed_key", 0),
       [("seed_key", B), ("seed_key_l1", Z), ("l1", Z), ("seed_key_l2", Z), ("l2", Z)], B, props=("C10", "C02")),
     K("k_cache_store", F, "KeyCache._store_key", ("if_mentions", "existing", 0),
       [("existing", B), ("key_l1", Z), ("existing_l1", Z), ("key_l2", Z), ("existing_l2", Z)], B, props=("C10",)),
     K("k_cache_root_overwrites", F, "KeyCache._get_key", ("custom", _root_return_shape), [], B, props=("C10",)),
+    K("k_cache_l0_guard", F, "KeyCache._get_key", ("custom", _l0_guard), [("l0", Z)], B, props=("C05",)),
     K("k_root_env_l1", F, "KeyCache._get_key", ("callarg", "GroupKeyEnvelope", 0, "l1"), [], Z, props=("C10", "C02")),
     K("k_root_env_l2", F, "KeyCache._get_key", ("callarg", "GroupKeyEnvelope", 0, "l2"), [], Z, props=("C10", "C02")),
     K("k_root_env_flags", F, "KeyCache._get_key", ("callarg", "GroupKeyEnvelope", 0, "flags"), [], Z, props=("C10", "C02")),
